@@ -276,7 +276,7 @@ pub fn check_case(ctx: &Ctx, case: &Case, with_cli: bool, t: &mut Tally) {
     }
     if with_cli {
         if let Some(bin) = &ctx.cli_debug {
-            cli_roundtrip(bin, case, &text, &rf, &rf2, t);
+            cli_roundtrip(bin, case, &text, &c1, &c2, &fac, t);
         }
     }
     let kinds = ["CONSUMO", "PRODUCCION", "AUX", "SALIDA", "DEMANDA"].iter().filter(|k| text.contains(*k)).count();
@@ -291,7 +291,7 @@ pub fn check_case(ctx: &Ctx, case: &Case, with_cli: bool, t: &mut Tally) {
 }
 
 /// evaluate, save with --oc / --of, evaluate the saved files: same report
-fn cli_roundtrip(bin: &std::path::Path, case: &Case, text: &str, rf: &crate::refmodel::RefOut, rf2: &crate::refmodel::RefOut, t: &mut Tally) {
+fn cli_roundtrip(bin: &std::path::Path, case: &Case, text: &str, c1: &Components, c2: &Components, fac: &Factors, t: &mut Tally) {
     let dir = cli::scratch_dir("c18");
     let cpath = dir.join("c.csv");
     let _ = std::fs::write(&cpath, text);
@@ -338,26 +338,48 @@ fn cli_roundtrip(bin: &std::path::Path, case: &Case, text: &str, rf: &crate::ref
         if r2.code != Some(0) {
             t.violation("C18.saved_files_not_evaluable", format!("the files saved with --oc / --of are rejected (exit {:?}): {}", r2.code, r2.stderr.lines().next().unwrap_or("")), || wit(json!({"saved_components": std::fs::read_to_string(&oc).unwrap_or_default(), "saved_factors": std::fs::read_to_string(&of).unwrap_or_default()})));
         } else {
-            // effect of the text rounding on the per-m2 figures, as propagated by the equations, plus the
-            // rounding of hash-ordered accumulation
+            // effect of the text rounding on the per-m2 figures, as propagated by the equations (reference
+            // evaluations of the original and of the read-back data *with the options of these runs*), plus the
+            // rounding of hash-ordered accumulation; printed totals add up to three such fields
+            // the command lines above do not pass user RED1 / RED2: the factor set of these runs has none
+            let fac_cli = {
+                let mut fc = case.fac.clone();
+                match &mut fc {
+                    FacChoice::Loc { red1, red2, .. } | FacChoice::User { red1, red2, .. } => {
+                        *red1 = None;
+                        *red2 = None;
+                    }
+                }
+                safe::guard(|| fc.build()).ok()
+            };
+            let fac_owned = fac_cli.unwrap_or_else(|| fac.clone());
+            let fac = &fac_owned;
+            let rfa = ref_eval_parsed(c1, fac, k as f32, area as f32, case.lm).unwrap_or_default();
+            let rfb = ref_eval_parsed(c2, fac, k as f32, area as f32, case.lm).unwrap_or_default();
+            let rf = &rfa;
             let mut slack = report_slack(rf);
-            for (p, a) in rf.iter().filter(|(p, _)| p.starts_with("balance_m2.")) {
-                if let Some(b) = rf2.get(p) {
+            for (p, a) in rfa.iter().filter(|(p, _)| p.starts_with("balance_m2.")) {
+                if let Some(b) = rfb.get(p) {
                     if a.s.is_finite() && b.s.is_finite() {
-                        slack = slack.max(1.05 * (a.v - b.v).abs() + 3e-6 * a.s);
+                        slack = slack.max(3.2 * (a.v - b.v).abs() + 3e-6 * a.s);
                     }
                 }
             }
-            // the DHW percentage is a ratio of rounded sums: it is compared on its own
+            // the DHW percentage is a ratio of rounded sums: each run must state what the library computes for
+            // its own data (original / read back); how far the two are apart is not bounded here
             let pct_line = |s: &str| -> Option<f64> { s.lines().find(|l| l.starts_with("Porcentaje renovable de la demanda de ACS")).and_then(|l| cli::numbers(l.split(':').nth(1).unwrap_or("")).first().copied()) };
             let without_pct = |s: &str| -> String { s.lines().filter(|l| !l.starts_with("Porcentaje renovable de la demanda de ACS")).collect::<Vec<_>>().join("\n") };
-            let (dem, noise) = dhw_noise_band(&case.spec);
-            let off = text.parse::<Components>().ok().as_ref().map(off_grid_lines).unwrap_or(0) as f64;
-            let ndv = case.spec.lines.iter().filter(|l| matches!(l, crate::spec::Line::Need { srv, .. } if srv == "ACS")).map(|l| l.values().len()).sum::<usize>() as f64;
-            if let (Some(p1), Some(p2)) = (pct_line(&rep(&r1.stdout)), pct_line(&rep(&r2.stdout))) {
-                let pslack = 0.2002 + 100.0 * noise + if dem.abs() > 0.0 { (100.0 * 0.00501 * off * case.spec.n as f64 + p1.abs() * 0.00501 * ndv) / dem.abs() } else { f64::INFINITY };
-                if !((p1 - p2).abs() <= pslack) {
-                    t.violation("C18.saved_files_give_other_results", format!("renewable DHW percentage {p1} from the original files, {p2} from the saved files (admissible difference {pslack:.3})"), || wit(json!({"first": rep(&r1.stdout), "second": rep(&r2.stdout)})));
+            let (_, noise) = dhw_noise_band(&case.spec);
+            let lib_pct = |c: &Components| -> Option<f64> {
+                let stripped = fac.clone().strip(c);
+                let ep = safe::eval(c, &stripped, k as f32, area as f32, case.lm).ok()?;
+                safe::guard(|| cteepbd::cte::fraccion_renovable_acs_nrb(&ep)).ok().map(|x| 100.0 * x as f64)
+            };
+            for (which, out, comps) in [("original", &r1.stdout, c1), ("saved", &r2.stdout, c2)] {
+                if let (Some(p), Some(l)) = (pct_line(&rep(out)), lib_pct(comps)) {
+                    if l.is_finite() && !((p - l).abs() <= 0.1502 + 100.0 * noise + 1e-4 * l.abs()) {
+                        t.violation("C18.saved_files_give_other_results", format!("run on the {which} files prints a renewable DHW percentage of {p}, the library computes {l} for that data"), || wit(json!({"first": rep(&r1.stdout), "second": rep(&r2.stdout)})));
+                    }
                 }
             }
             let (r1out, r2out) = (without_pct(&rep(&r1.stdout)), without_pct(&rep(&r2.stdout)));
